@@ -1023,6 +1023,14 @@ def run(index: RepoIndex, rep) -> None:
              'in GridWorld\'s parameter order', floor=8)
     rep.rule('C17.R7', 'declared types and colours cover what can be placed (C01.R6)', floor=21)
     composite_parts(index, rep, 'C17.R6')
+    rep.rule('C17.R9', 'each gym id / reserved key gets its own binding: closures made in the '
+             'registration and assembly loops bind the loop variable at definition time',
+             floor=1)
+    from .wiring import late_binding_closures
+    late_binding_closures(index, rep, 'C17.R9', (
+        'gym_gridverse/gym.py', 'gym_gridverse/envs/yaml/factory.py',
+        'gym_gridverse/envs/yaml/schemas.py', 'gym_gridverse/utils/registry.py',
+        'gym_gridverse/utils/space_builders.py'))
     rep.rule('C17.R8', 'schema predicates do not consult registries (validation precedes the '
              'import of custom modules)', floor=8)
     validation_before_imports(index, rep, 'C17.R8')
